@@ -138,6 +138,8 @@ def crash_sig(o):
 def judge(ctx, en, a, b):
     inp = {"lang": en["lang"], "src": en["src"]}
     if a["k"] == "exc":
+        if a["at"][0] == "<outside>" and a["type"] in ("AttributeError", "SyntaxError", "NameError"):
+            return  # the generated source called a method this kind of constituent does not have: not a library crash
         ctx.fail(crash_sig(a), inp, a)
         return
     if a["k"] == "hang":
@@ -151,6 +153,8 @@ def judge(ctx, en, a, b):
         return
     # flagged run: PyrealbException iff the unflagged run warned
     if b["k"] == "exc":
+        if b["at"][0] == "<outside>" and b["type"] in ("AttributeError", "SyntaxError", "NameError"):
+            return
         ctx.fail("flagged-" + crash_sig(b), inp, b)
     elif a["w"] > 0 and b["k"] != "PyrealbException":
         ctx.fail("warned-but-no-exception-with-flag", inp, {"unflagged": a, "flagged": b})
